@@ -163,11 +163,37 @@ func explore(d Driver, tier string, seed int64, deadlineSec int) *Report {
 				if c == nil {
 					c, reproduced = confirmCrash(self, d.ID(), tier, idx, dir, shard)
 				}
+				history := ""
+				if reproduced < 3 {
+					// alone the case is fine: the death may need the process state left by the preceding
+					// cases of this worker — replay the worker's deterministic case sequence up to it, twice
+					hits := 0
+					for k := 0; k < 2; k++ {
+						cur2 := filepath.Join(dir, fmt.Sprintf("hcursor-%d-%d", shard, k))
+						out2 := filepath.Join(dir, fmt.Sprintf("hout-%d-%d", shard, k))
+						_ = os.Remove(cur2)
+						hc := exec.Command("/bin/bash", "-c", fmt.Sprintf("ulimit -v %d; exec %q worker -prop %s -tier %s -shard %d -n %d -stopafter %d -cursor %q -out %q",
+							envInt("VERIF_ULIMIT_KB", 12*1024*1024), self, d.ID(), tier, hshard, n, idx, cur2, out2))
+						herr := hc.Run()
+						i2, _, busy2 := readCursor(cur2)
+						_ = os.Remove(out2)
+						if herr != nil && busy2 && i2 == idx {
+							hits++
+						}
+					}
+					if hits == 2 {
+						reproduced = 3
+						history = " (not alone, but twice out of twice when the preceding cases of its worker run first)"
+						if c == nil {
+							c = FindCase(d.ID(), tier, idx)
+						}
+					}
+				}
 				mu.Lock()
 				if reproduced >= 3 && c != nil {
 					famDead[c.Family]++
 					rep.Crashes = append(rep.Crashes, fmt.Sprintf("%s idx=%d key=%s", kind, idx, c.Key))
-					rep.Viols = append(rep.Viols, violRec{"viol", idx, c, []Violation{{Class: "worker-" + kind, Detail: fmt.Sprintf("worker process died (%d isolated re-runs reproduce): %s", reproduced, tail)}}, kind})
+					rep.Viols = append(rep.Viols, violRec{"viol", idx, c, []Violation{{Class: "worker-" + kind, Detail: fmt.Sprintf("worker process died (%d isolated re-runs reproduce%s): %s", reproduced, history, tail)}}, kind})
 					rep.ByClass["worker-"+kind]++
 					rep.Violating++
 				} else {
